@@ -626,7 +626,33 @@ def c20(tier, seed):
     return res
 
 
+# ------------------------------------------------------------------------------------------------ C01 oracle self-test
+def oracle_selftest(tier, seed):
+    """Replay the same TLC stimuli on std::vector (thin adaptor in the driver).  The C01 / C11 result checks must
+    accept every call: this validates the TLA+ transcription of std::vector's semantics against libstdc++ instead of
+    trusting it.  A rejection here is an error of the ORACLE (internal error), never a finding about small_vector."""
+    import jobs as Jb
+    import suites
+    n = 2500 if tier == 'quick' else None
+    rs = [Jb.run_job(suites.one(0), suites.drv(0, elem=suites.NT, VECTOR=1), 0, n, seed, None, False, None, 'oracle self-test: std::vector<Tracked>'),
+          Jb.run_job(suites.one(0), suites.drv(0, elem=suites.INT, VECTOR=1, ALLOC=0), 0, n, seed, None, False, None, 'oracle self-test: std::vector<int>')]
+    bad = []
+    calls = 0
+    for r in rs:
+        calls += r['ops']
+        for v in r['violations']:
+            if v['property'] in ('C01', 'C11'):
+                v = dict(v)
+                v['check'] = 'ORACLE SELF-TEST on std::vector failed: ' + v['check']
+                v['property'] = 'INTERNAL'
+                bad.append(v)
+    return dict(lines=0, ops=0, restarts=0, skipped=0, sample=[], sigs={}, nlines={}, violations=bad, stims=0, stims_total=0, mc=None, drv='std::vector',
+                drvconf=None, fmode=0, label='oracle self-test: %d std::vector calls accepted by the C01 / C11 checks' % calls,
+                coverage_extra=dict(oracle_selftest_std_vector_calls=calls))
+
+
 EXTRA = {
+    'C01': [oracle_selftest],
     'C19': [c19],
     'C18': [c18_table],
     'C13': [c13_facts],
